@@ -29,8 +29,49 @@ C06_LABELS = ('reply-bit: the reply service is the request service | 0x80', 'ret
               'status-is-0x00-0x05-or-0xFF', 'unknown-tag-or-attribute: status 0x05')
 
 
+
+# ------------------------------------------------------------------------------------------------ Register Session: a fresh, non-zero session handle
+import ast as _ast
+import z3 as _z3
+
+UC = 'server/enip/ucmm.py'
+INSESS = _z3.Function('in_sessions', _z3.IntSort(), _z3.BoolSort())     # `session in self.__class__.sessions` for the table as it is on entry
+
+
+def frag_register(eng, fdef):
+    """the statements under `with self.lock:` in the `'enip.CIP.register' in data` branch of UCMM.request (choose a session handle, record it)"""
+    from pyvc.vals import Unsupported
+    for n in _ast.walk(fdef):
+        if isinstance(n, _ast.If) and _ast.unparse(n.test) == "'enip.CIP.register' in data":
+            w = n.body[0]
+            if isinstance(w, _ast.With) and _ast.unparse(w.items[0].context_expr) == 'self.lock':
+                after = n.body[1]
+                if not (isinstance(after, _ast.Assign) and _ast.unparse(after) == 'data.enip.session_handle = session'):
+                    raise Unsupported('stale contract: the chosen session is not what the reply carries (line %d)' % after.lineno)
+                return list(w.body[:2])          # the draw and the re-draw loop (the table update that follows is by env model)
+    raise Unsupported("stale contract: UCMM.request has no `with self.lock:` block in its register branch")
+
+
+def register_spec():
+    from pyvc.spec import Spec, Loop
+    from pyvc.vals import BoolV
+    from pyvc.pure import to_int
+    return Spec(
+                'UCMM.request[register: session handle]', (UC, 'UCMM.request'), params={}, fragment=frag_register,
+                hints=dict(locals={}, funcs=dict(in_sessions=lambda pe, x: BoolV(INSESS(to_int(x))))),
+                env={'session in self.__class__.sessions': lambda eng, st: BoolV(INSESS(to_int(st.loc['session'])))},
+                loops={0: Loop(invariant=[('a 32-bit value', '0 <= session <= 4294967295')])},
+                ensures=[('the session handle is not zero', '_f_session != 0'),
+                         ('and is not a handle already in use', 'not in_sessions(_f_session)'),
+                         ('a 32-bit value', '0 <= _f_session <= 4294967295')],
+                raises={}, modifies=[],
+                note='FRAGMENT (T9): the draw / re-draw loop of Register Session (random.randint by its T2 axiom: some value in range); the selector checks '
+                     'on the AST that the reply carries exactly this value (data.enip.session_handle = session). Termination of the re-draw loop is '
+                     'probabilistic and not claimed. `session in sessions` is an uninterpreted predicate over the table on entry.')
+
+
 def contracts(repo):
-    items = []
+    items = [register_spec()]
     for sp in LC.request_specs():
         sp.ensures = [(l, t) for l, t in sp.ensures if l in C06_LABELS]
         items.append(sp)
